@@ -301,4 +301,9 @@ Definition leave_created (c : client) (e : event) : client :=
 Definition restart (c : client) : client :=
   set_queue c (map (fun s => mkSnap (sn_epoch s) (sn_key s) 0 (sn_core s)) (queue c)).
 
+(* the same with another configured retention: the snapshots stay stored until the manager is used again; the next snapshot
+   taken (take_snapshot prunes to the client's retention) brings the number within the new limit *)
+Definition restart_with (c : client) (ret : N) : client :=
+  mkClient (me c) (is_admin c) ret (kc c) (dedup c) (msgs c) (queue (restart c)) (rollbacks c).
+
 Definition deliver (c : client) (e : event) : client * rk := process 2 c e.
